@@ -1,6 +1,6 @@
 // C11 — constraint-removing reparametrisation is a faithful change of variables
 // VF-VARIANT: san
-// VF-RULE: E2 product spaces, every index executed. (1) bare transforms: every (bound pair | bound) x scale x {tanh,tan} x value-lattice point for the round trip original->transformed->original; every step k of the transformed-coordinate lattice x=-30..30 (step 1/8) for monotonicity (step k vs a fixed anchor step) and for first/second derivative vs central differences of the implementation's own map. (2) wrapper: every constraint kind (8 interval shapes + none + non-interval) in every slot for 1 and 2 parameters, cyclic assignments for 3..5, x bound choice x initial value (incl. at a closed bound and 1e-9 from a bound) x wrapper class (plain/first/second order) x with/without sub-list x transformed-coordinate lattice point. A case is non-trivial when the transform is not the identity and the lattice step / value lies where the map is not saturated (round trip: always).
+// VF-RULE: E2 product spaces, every index executed. (1) bare transforms: every (bound pair | bound) x scale x {tanh,tan} x value-lattice point for the round trip original->transformed->original; every step k of the transformed-coordinate lattice x=-30..30 (step 1/8) for monotonicity (step k vs a fixed anchor step) and for first/second derivative vs central differences of the implementation's own map. (2) wrapper: every constraint kind (8 interval shapes + none + non-interval) in every slot for 1 and 2 parameters, cyclic assignments for 3..5, x bound choice x initial value (incl. at a closed bound and 1e-9 from a bound) x wrapper class (plain/first/second order) x with/without sub-list x transformed-coordinate lattice point. A case is non-trivial when the transform is not the identity and the lattice step / value lies where the map is not saturated (round trip: always). A wrapper assigned from a wrapper over another function (kinds of the first x kinds of the second x wrapper class x 5 points) must answer what a fresh wrapper over an equal function answers.
 // VF-BOUND: bounds from {-1000,-1,0,2.5,1000} (thorough, bare transforms: also -999,1e-3,999, i.e. 28 pairs) instead of all of [-1e3,1e3]; scales {0.1,1,10} (thorough adds 0.25,4) instead of [0.1,10]; 5..9 values per interval (mid, 10%, 1e-9 from either bound, thorough adds 1e-6 and 1e-3) instead of every value; transformed coordinates on the lattice -30..30 step 1/8 (bare transforms, 1-parameter wrapper in thorough; step 1/2 in quick) and coarse 11- / 5-point lattices for 2 / 3..5 parameters instead of all reals in [-30,30]; 3..5-parameter functions take the 10 cyclic kind assignments instead of all 10^n
 // VF-LEVEL: bounded-exhaustive differential check on the real classes: every listed configuration x value x lattice point is executed; tolerances are rounding/truncation bounds derived next to their use; nothing sampled
 // VF-ASSUME: libm tanh/atanh/tan/atan/exp/log accurate to 2 ulp;; the quadratic test objective (harness code) has the gradient/Hessian it reports;; central differences with h=scale*2^-12 and the stated truncation bound represent 'agree with finite differences';; behaviour between lattice points is not observed
@@ -438,6 +438,29 @@ static void wrapperCase(const std::vector<SlotCfg>& sl, int variant, bool sub, c
 static const double CX11[11] = {0, 0.125, -0.125, 1, -1, 5, -5, 19, -19, 30, -30};
 static const double CX5[5] = {0, 0.125, -1, 30, -30};
 
+// a wrapper assigned from a wrapper over ANOTHER function (other constraints on the same names) is a wrapper of that function: evaluated
+// at a transformed point it must answer what a fresh wrapper over an equal function answers (value or the same refusal)
+static void assignedCase(const std::vector<SlotCfg>& slA, const std::vector<SlotCfg>& slB, int variant, const std::vector<double>& x, vf::Case& c) {
+  std::string cfg = "wrapper(" + std::string(variant == 0 ? "plain" : variant == 1 ? "first-order" : "second-order") + ") over [p0:" + slA[0].s() + "; p1:" + slA[1].s() + "] assigned from a wrapper over [p0:" + slB[0].s() + "; p1:" + slB[1].s() + "], x=" + vf::vstr(x);
+  try {
+    auto fA = std::make_shared<PolyFn>(slA), fB = std::make_shared<PolyFn>(slB), fR = std::make_shared<PolyFn>(slB);
+    c.site("ReparametrizationFunctionWrapper::operator=");
+    std::shared_ptr<ReparametrizationFunctionWrapper> wA, wR;
+    if (variant == 0) { auto a = std::make_shared<ReparametrizationFunctionWrapper>(fA, false); ReparametrizationFunctionWrapper b(fB, false); *a = b; wA = a; wR = std::make_shared<ReparametrizationFunctionWrapper>(fR, false); }
+    else if (variant == 1) { auto a = std::make_shared<ReparametrizationDerivableFirstOrderWrapper>(fA, false); ReparametrizationDerivableFirstOrderWrapper b(fB, false); *a = b; wA = a; wR = std::make_shared<ReparametrizationDerivableFirstOrderWrapper>(fR, false); }
+    else { auto a = std::make_shared<ReparametrizationDerivableSecondOrderWrapper>(fA, false); ReparametrizationDerivableSecondOrderWrapper b(fB, false); *a = b; wA = a; wR = std::make_shared<ReparametrizationDerivableSecondOrderWrapper>(fR, false); }
+    if (wA->getNumberOfParameters() != wR->getNumberOfParameters()) { c.fail("wrapper|assigned|parameter-set", cfg); return; }
+    ParameterList pl = wR->getParameters(); for (size_t i = 0; i < pl.size() && i < x.size(); ++i) pl[i].setValue(x[i]);
+    c.site("ReparametrizationFunctionWrapper::f (assigned wrapper)");
+    double vr = 0, va = 0; bool rr = false, ra = false;
+    try { vr = wR->f(pl); } catch (bpp::Exception&) { rr = true; }
+    try { va = wA->f(pl); } catch (bpp::Exception& e) { ra = true; if (!rr) { c.fail("wrapper|assigned|evaluation-raises", cfg + ": " + line1(e.what())); return; } }
+    if (rr != ra) { c.fail("wrapper|assigned|evaluation-outcome-differs-from-fresh-wrapper", cfg); return; }
+    if (!rr && !(va == vr || std::fabs(va - vr) <= 1e-12 * std::max(1.0, std::fabs(vr)))) c.fail("wrapper|assigned|value-differs-from-fresh-wrapper", cfg + ": " + num(va) + " vs " + num(vr));
+    c.nontrivial(); c.tag("wrapper-assigned-judged");
+  } catch (bpp::Exception& e) { c.fail("wrapper|assigned|raises", cfg + ": " + line1(e.what())); }
+}
+
 static void wrapperSpaces(vf::Runner& R, bool th) {
   // ---- one parameter: every kind x bound choice x initial value x wrapper class x sub-list x lattice point
   int step = th ? 1 : 4;                      // x lattice step 1/8 (thorough) or 1/2 (quick)
@@ -459,6 +482,13 @@ static void wrapperSpaces(vf::Runner& R, bool th) {
     std::vector<int> d = vf::digits(idx, {11, 11, 6, NKIND, NKIND});
     std::vector<SlotCfg> sl = {makeSlot(d[3], 3 * d[3] + d[4], (d[3] + 2 * d[4]) % NINIT), makeSlot(d[4], d[3] + 7 * d[4] + 1, (3 * d[3] + d[4] + 5) % NINIT)};
     wrapperCase(sl, d[2] % 3, d[2] >= 3, {CX11[d[0]], CX11[d[1]]}, -1, c, idx % 30011 == 11);
+  }, 5.0);
+  // assignment between wrappers over functions with other constraints on the same names: kinds of A x kinds of B x class x 5 points
+  R.space("wrapper:assigned-from-a-wrapper-over-another-function:kinds10x10:variants3:x5", (uint64_t)5 * 3 * NKIND * NKIND, [=](uint64_t idx, vf::Case& c) {
+    std::vector<int> d = vf::digits(idx, {5, 3, NKIND, NKIND});
+    std::vector<SlotCfg> slA = {makeSlot(d[2], 3 * d[2] + d[3], (d[2] + 2 * d[3]) % NINIT), makeSlot(d[3], d[2] + 7 * d[3] + 1, (3 * d[2] + d[3] + 5) % NINIT)};
+    std::vector<SlotCfg> slB = {makeSlot(d[3], 2 * d[2] + d[3] + 3, (d[2] + d[3] + 1) % NINIT), makeSlot(d[2], 5 * d[2] + d[3] + 2, (2 * d[2] + 3 * d[3]) % NINIT)};
+    assignedCase(slA, slB, d[1], {CX5[d[0]], CX5[(d[0] + 2) % 5]}, c);
   }, 5.0);
   // partial update: only one of the two coordinates is sent to the wrapper
   R.space("wrapper:n2-partial:kinds10x10:variants2:slot2:x11", (uint64_t)11 * 2 * 2 * NKIND * NKIND, [=](uint64_t idx, vf::Case& c) {
